@@ -342,16 +342,26 @@ theorem splitStr_append (a b : String) : splitStr ' ' (a ++ " " ++ b) = splitStr
   have : (a ++ " " ++ b).toList = a.toList ++ ' ' :: b.toList := by simp
   rw [this, splitOn_append, List.map_append]
 
+theorem filter_split_catItems (a b : String) :
+    (splitStr ' ' (catItems a b)).filter (· ≠ "") =
+      (splitStr ' ' a).filter (· ≠ "") ++ (splitStr ' ' b).filter (· ≠ "") := by
+  unfold catItems
+  split
+  · rename_i h; subst h
+    have : splitStr ' ' "" = [""] := by decide
+    rw [this]; simp
+  · rw [splitStr_append, List.filter_append]
+
 theorem merged_itemRefs (rt : RT) (hg : rt = .O ∨ rt = .U) (n : String) (p r : Rec) (tg : List String)
     (hp : p.rt = rt) (hr : r.rt = rt) (m : String)
-    (hm : m ∈ (⟨rt, [n, fld p 1 ++ " " ++ fld r 1] ++ tg, false⟩ : Rec).itemRefs) :
+    (hm : m ∈ (⟨rt, [n, catItems (fld p 1) (fld r 1)] ++ tg, false⟩ : Rec).itemRefs) :
     m ∈ p.itemRefs ∨ m ∈ r.itemRefs := by
   rcases hg with rfl | rfl
   · simp only [Rec.itemRefs, hp, hr, fld, List.cons_append, List.getD_cons_succ, List.getD_cons_zero] at hm ⊢
-    rw [splitStr_append, List.filter_append, List.map_append, List.mem_append] at hm
+    rw [filter_split_catItems, List.map_append, List.mem_append] at hm
     exact hm
   · simp only [Rec.itemRefs, hp, hr, fld, List.cons_append, List.getD_cons_succ, List.getD_cons_zero] at hm ⊢
-    rw [splitStr_append, List.filter_append, List.mem_append] at hm
+    rw [filter_split_catItems, List.mem_append] at hm
     exact hm
 
 theorem group_segRefs (r : Rec) (hg : r.rt = .O ∨ r.rt = .U) : r.segRefs = [] := by
@@ -367,9 +377,9 @@ theorem mergeGroup_closed (st st' : St) (r : Rec) (n : String) (i : Nat) (hc : C
   · rename_i tg _
     obtain ⟨g, cr⟩ := ensureRefs_grow _ st' r he
     obtain ⟨_, hne⟩ := name_group r n hg hn
-    have hmn : (⟨r.rt, [n, fld (st.lines.getD i default) 1 ++ " " ++ fld r 1] ++ tg, false⟩ : Rec).name = some n := by
+    have hmn : (⟨r.rt, [n, catItems (fld (st.lines.getD i default) 1) (fld r 1)] ++ tg, false⟩ : Rec).name = some n := by
       rcases hg with h | h <;> simp [Rec.name, h, fld, hne]
-    have e0 := ext_set st i ⟨r.rt, [n, fld (st.lines.getD i default) 1 ++ " " ++ fld r 1] ++ tg, false⟩ hi
+    have e0 := ext_set st i ⟨r.rt, [n, catItems (fld (st.lines.getD i default) 1) (fld r 1)] ++ tg, false⟩ hi
       (Or.inr (hp.trans hmn.symm))
       (by rw [hrt]; intro h; rcases hg with h' | h' <;> rw [h'] at h <;> cases h)
     have hprev : st.lines.getD i default ∈ st.lines := by
@@ -411,6 +421,8 @@ theorem add_closed (st st' : St) (r : Rec) (hc : Closed st) (he : add st r = .ok
   · cases he
   split at he
   · split at he <;> cases he
+  split at he
+  · cases he
   split at he
   · split at he
     · cases he
